@@ -46,7 +46,7 @@ def output_transform(inputs, out, params):
 def run(chk):
     w = make_world(chk.repo)
     chk.files = w.files
-    thorough = chk.tier == "thorough"
+    thorough = chk.full
     chk.rule("C10.R1", "eval_nn == output_transform(inputs, net(input_transform(inputs, params)).squeeze(), params)[output_slice] "
                        "with a trailing component axis; bare network parameters accepted", floor=8)
     chk.rule("C10.R2", "__call__ dispatch per equation type; 0-d time gets an axis (ODE); network input [t, x]", floor=4)
